@@ -566,3 +566,308 @@ Proof.
     + inversion Hn; subst n. cbn [on_with_ch on_ch]. apply nodup_aremove. apply (hi_chnodup _ _ Hinv _ _ Hp).
     + destruct (Nat.eqb t i); [inversion Hn; subst; constructor|]. apply (hi_chnodup _ _ Hinv _ _ Hn).
 Qed.
+
+(* ---- keys below keys ------------------------------------------------------------------------- *)
+Lemma Fi_prefix_closed idx h : hinv idx h -> forall rest cs, gcs cs -> gcs rest ->
+  Fi idx (cs ++ rest) <> None -> Fi idx cs <> None.
+Proof.
+  intros Hinv rest. induction rest as [|c r IH] using rev_ind; intros cs Hcs Hr HF.
+  - rewrite app_nil_r in HF. exact HF.
+  - apply gcs_snoc_inv in Hr. destruct Hr as [Hr Hc]. rewrite app_assoc in HF.
+    destruct (Fi idx ((cs ++ r) ++ [c])) as [i|] eqn:E; [|congruence].
+    apply (hi_edge _ _ Hinv) in E; [|apply gcs_app; assumption|exact Hc].
+    destruct E as (p & Hp & _). apply IH; [exact Hcs|exact Hr|congruence].
+Qed.
+
+Lemma Fi_below_leaf idx h cs t c rest : hinv idx h -> gcs cs -> gcs (c :: rest) ->
+  Fi idx cs = Some t -> (forall c', Ch h t c' = None) -> Fi idx (cs ++ c :: rest) = None.
+Proof.
+  intros Hinv Hcs Hr Ht Hleaf. inversion Hr as [|? ? Hc Hrest]; subst.
+  destruct (Fi idx (cs ++ c :: rest)) as [i|] eqn:E; [exfalso|reflexivity].
+  assert (H1 : Fi idx ((cs ++ [c]) ++ rest) <> None) by (rewrite <- app_assoc; cbn [app]; congruence).
+  apply (Fi_prefix_closed idx h Hinv rest (cs ++ [c])) in H1; [|apply gcs_snoc; assumption|exact Hrest].
+  destruct (Fi idx (cs ++ [c])) as [j|] eqn:E2; [|congruence].
+  apply (hi_edge _ _ Hinv) in E2; [|exact Hcs|exact Hc]. destruct E2 as (p & Hp & Hq).
+  rewrite Ht in Hp. inversion Hp; subst p. rewrite Hleaf in Hq. discriminate.
+Qed.
+
+Lemma Fi_below_none idx h cs c rest : hinv idx h -> gcs cs -> gcs (c :: rest) ->
+  Fi idx cs = None -> Fi idx (cs ++ c :: rest) = None.
+Proof.
+  intros Hinv Hcs Hr Hn. destruct (Fi idx (cs ++ c :: rest)) as [i|] eqn:E; [exfalso|reflexivity].
+  apply (Fi_prefix_closed idx h Hinv (c :: rest) cs Hcs Hr); congruence.
+Qed.
+
+(* ---- P5: a node moves from one name to another (Rename) ---------------------------------------- *)
+(* the node map after the move, as a function of the components:
+   below the new name what was below the old one, nothing below the old name, the rest unchanged *)
+Definition Gmove (idx : list (str * nat)) (old new cs : list str) : option nat :=
+  match strip new cs with
+  | Some r => Fi idx (old ++ r)
+  | None => match strip old cs with Some _ => None | None => Fi idx cs end
+  end.
+
+Record move_spec (idx idx' : list (str * nat)) (old new : list str) (nc : option nat) : Prop := {
+  ms_nodup : NoDup (map fst idx');
+  ms_keys : forall k i, ikey idx' k = Some i -> (k = [SLASH] /\ i = 0) \/ exists cs, gcs cs /\ k = rpath cs;
+  ms_root : ikey idx' [] = Some 0 /\ ikey idx' [SLASH] = Some 0;
+  ms_F : forall cs, gcs cs -> Fi idx' cs = Gmove idx old new cs;
+  ms_vals : forall k i, ikey idx' k = Some i -> exists k0, ikey idx k0 = Some i;
+  ms_count : forall i, kcount i idx' + (match nc with Some j => if Nat.eqb j i then 1 else 0 | None => 0 end) = kcount i idx
+}.
+
+Lemma hinv_move idx idx' h ops on nps nn op oc ocn np npn nc :
+  hinv idx h -> gcs ops -> good_comp on -> gcs nps -> good_comp nn ->
+  Fi idx ops = Some op -> Fi idx (ops ++ [on]) = Some oc -> oget h oc = Some ocn ->
+  Fi idx nps = Some np -> oget h np = Some npn -> on_dir npn = true ->
+  (forall r, nps ++ [nn] <> (ops ++ [on]) ++ r) ->
+  Fi idx (nps ++ [nn]) = nc ->
+  (forall j, nc = Some j -> j <> oc /\ exists jn, oget h j = Some jn /\ on_dir jn = false /\ on_dir ocn = false) ->
+  move_spec idx idx' (ops ++ [on]) (nps ++ [nn]) nc ->
+  hinv idx' (o_del_child (o_add_child (match nc with Some j => o_release h j | None => h end) np nn oc) op on).
+Proof.
+  intros Hinv Hops Hon Hnps Hnn HFop HFoc Hoc HFnp Hnp Hnpd Hnb HFnc Hnc Hms.
+  set (old := ops ++ [on]) in *. set (new := nps ++ [nn]) in *.
+  assert (Hgo : gcs old) by (apply gcs_snoc; assumption).
+  assert (Hgn : gcs new) by (apply gcs_snoc; assumption).
+  destruct (parent_is_dir idx h Hinv ops on oc Hops Hon HFoc) as (op' & opn & HFop' & Hop & Hopd & Hopc).
+  rewrite HFop in HFop'. inversion HFop'; subst op'. clear HFop'.
+  assert (Hoc0 : oc <> 0).
+  { intros ->. pose proof (hi_rootkey _ _ Hinv _ Hgo HFoc) as E. unfold old in E. destruct ops; discriminate. }
+  assert (Hocop : oc <> op).
+  { intros ->. pose proof (dir_key_unique idx h Hinv _ _ op Hgo Hops HFoc HFop) as E.
+    apply (snoc_neq_self _ ops on). symmetry. apply E. exists opn. auto. }
+  (* the replaced node is a file different from everything involved *)
+  assert (Hncf : forall j, nc = Some j -> j <> oc /\ j <> op /\ j <> np /\ (forall c', Ch h j c' = None)).
+  { intros j Hj. destruct (Hnc j Hj) as (H1 & jn & Hjn & Hjd & _). repeat split; [exact H1| | |].
+    - intros ->. rewrite Hop in Hjn. inversion Hjn; subst. congruence.
+    - intros ->. rewrite Hnp in Hjn. inversion Hjn; subst. congruence.
+    - intros c'. unfold Ch. rewrite Hjn. rewrite (hi_leaf _ _ Hinv _ _ Hjn Hjd). reflexivity. }
+  (* nothing lies below the new name *)
+  assert (Hbelow_new : forall c r, gcs (c :: r) -> Fi idx (new ++ c :: r) = None).
+  { intros c r Hcr. destruct nc as [j|] eqn:Enc.
+    - destruct (Hncf j eq_refl) as (_ & _ & _ & Hl). apply (Fi_below_leaf idx h new j c r Hinv Hgn Hcr HFnc Hl).
+    - apply (Fi_below_none idx h new c r Hinv Hgn Hcr HFnc). }
+  (* hence the old name is not below the new one *)
+  assert (Hob : forall r, old <> new ++ r).
+  { intros r E. destruct r as [|c r].
+    - rewrite app_nil_r in E. apply (Hnb []). rewrite app_nil_r. symmetry. exact E.
+    - assert (Hcr : gcs (c :: r)). { rewrite E in Hgo. apply Forall_app in Hgo. apply Hgo. }
+      rewrite E in HFoc. rewrite (Hbelow_new c r Hcr) in HFoc. discriminate. }
+  set (h1 := match nc with Some j => o_release h j | None => h end).
+  assert (Hh1 : forall i, oget h1 i = match nc with
+                                      | Some j => if Nat.eqb j i then option_map on_remove (oget h j) else oget h i
+                                      | None => oget h i end).
+  { intros i. unfold h1. destruct nc as [j|]; [|reflexivity].
+    destruct (Hnc j eq_refl) as (_ & jn & Hjn & _). unfold o_release. rewrite Hjn.
+    rewrite (oget_oupd _ _ _ _ _ Hjn). destruct (Nat.eqb j i); reflexivity. }
+  assert (Hnp1 : oget h1 np = Some npn).
+  { rewrite Hh1. destruct nc as [j|]; [|exact Hnp]. destruct (Hncf j eq_refl) as (_ & _ & Hjnp & _).
+    destruct (Nat.eqb_spec j np); [congruence|exact Hnp]. }
+  assert (Hop1 : oget h1 op = Some opn).
+  { rewrite Hh1. destruct nc as [j|]; [|exact Hop]. destruct (Hncf j eq_refl) as (_ & Hjop & _ & _).
+    destruct (Nat.eqb_spec j op); [congruence|exact Hop]. }
+  set (h2 := o_add_child h1 np nn oc).
+  assert (Hop2 : exists opn2, oget h2 op = Some opn2 /\ on_nlink opn2 = on_nlink opn /\ on_dir opn2 = true
+                 /\ on_ch opn2 = (if Nat.eqb np op then aset str_eqb nn oc (on_ch opn) else on_ch opn)).
+  { unfold h2, o_add_child. rewrite Hnp1. rewrite (oget_oupd _ _ _ _ _ Hnp1).
+    destruct (Nat.eqb_spec np op) as [E|_].
+    - subst np. rewrite Hop1 in Hnp1. inversion Hnp1; subst npn. eexists. split; [reflexivity|]. cbn. auto.
+    - exists opn. auto. }
+  destruct Hop2 as (opn2 & Hop2 & Hop2l & Hop2d & Hop2c).
+  set (h3 := o_del_child h2 op on).
+  (* the children maps of the final heap *)
+  assert (HCh : forall q c', Ch h3 q c' =
+            if Nat.eqb op q && str_eqb c' on then None
+            else if Nat.eqb np q && str_eqb c' nn then Some oc
+            else match nc with Some j => if Nat.eqb j q then None else Ch h q c' | None => Ch h q c' end).
+  { intros q c'. unfold h3. rewrite (Ch_del_child _ _ _ _ Hop2). destruct (Nat.eqb op q && str_eqb c' on); [reflexivity|].
+    unfold h2. rewrite (Ch_add_child _ _ _ _ _ Hnp1). destruct (Nat.eqb np q && str_eqb c' nn); [reflexivity|].
+    unfold h1. destruct nc as [j|]; [|reflexivity]. destruct (Hnc j eq_refl) as (_ & jn & Hjn & _).
+    apply (Ch_release _ _ _ Hjn). }
+  (* reading the final heap *)
+  assert (Hget : forall i n, oget h3 i = Some n ->
+            (i = op /\ on_nlink n = on_nlink opn /\ on_dir n = true /\
+               (forall c' j, In (c', j) (on_ch n) -> c' = nn \/ In (c', j) (on_ch opn)) /\ NoDup (map fst (on_ch n)))
+            \/ (i <> op /\ i = np /\ on_nlink n = on_nlink npn /\ on_dir n = true /\
+               (forall c' j, In (c', j) (on_ch n) -> c' = nn \/ In (c', j) (on_ch npn)) /\ NoDup (map fst (on_ch n)))
+            \/ (i <> op /\ i <> np /\ nc = Some i /\ exists jn, oget h i = Some jn /\ n = on_remove jn)
+            \/ (i <> op /\ i <> np /\ nc <> Some i /\ oget h i = Some n)).
+  { intros i n Hn. unfold h3, o_del_child in Hn. rewrite Hop2 in Hn. rewrite (oget_oupd _ _ _ _ _ Hop2) in Hn.
+    destruct (Nat.eqb_spec op i) as [<-|Hopi].
+    - left. inversion Hn; subst n. cbn [on_with_ch on_nlink on_ch]. split; [reflexivity|]. split; [exact Hop2l|].
+      split; [exact Hop2d|]. split.
+      + intros c' j Hin. apply in_aremove_in in Hin. rewrite Hop2c in Hin. destruct (Nat.eqb np op).
+        * apply in_aset_cases in Hin. destruct Hin as [[-> _]|Hin]; auto.
+        * auto.
+      + apply nodup_aremove. rewrite Hop2c. destruct (Nat.eqb np op); [apply nodup_aset|]; apply (hi_chnodup _ _ Hinv _ _ Hop).
+    - right. unfold h2, o_add_child in Hn. rewrite Hnp1 in Hn. rewrite (oget_oupd _ _ _ _ _ Hnp1) in Hn.
+      destruct (Nat.eqb_spec np i) as [<-|Hnpi].
+      + left. inversion Hn; subst n. cbn [on_with_ch on_nlink on_ch]. repeat split; auto.
+        * intros c' j Hin. apply in_aset_cases in Hin. destruct Hin as [[-> _]|Hin]; auto.
+        * apply nodup_aset. apply (hi_chnodup _ _ Hinv _ _ Hnp).
+      + right. rewrite Hh1 in Hn. destruct nc as [j|].
+        * destruct (Nat.eqb_spec j i) as [->|Hji].
+          -- left. repeat split; auto. destruct (oget h i) as [jn|]; [|discriminate]. cbn in Hn. inversion Hn. eauto.
+          -- right. repeat split; auto. congruence.
+        * right. repeat split; auto. discriminate. }
+  assert (Hlen : length h3 = length h).
+  { unfold h3, o_del_child. destruct (oget h2 op); [rewrite oupd_length|].
+    all: unfold h2, o_add_child; destruct (oget h1 np); [rewrite oupd_length|].
+    all: unfold h1; destruct nc as [j|]; [unfold o_release; destruct (oget h j); [rewrite oupd_length|]|]; reflexivity. }
+  assert (Hfwd : forall i x, oget h i = Some x -> exists n, oget h3 i = Some n /\ on_dir n = on_dir x).
+  { intros i x Hx. destruct (oget_lt_some h3 i) as (n & Hn); [rewrite Hlen; eapply oget_some_lt; exact Hx|].
+    exists n. split; [exact Hn|].
+    destruct (Hget i n Hn) as [(-> & _ & Hd & _)|[(_ & -> & _ & Hd & _)|[(_ & _ & _ & jn & Hjn & ->)|(_ & _ & _ & Hold)]]].
+    - rewrite Hop in Hx. inversion Hx; subst. congruence.
+    - rewrite Hnp in Hx. inversion Hx; subst. congruence.
+    - rewrite Hjn in Hx. inversion Hx; subst. reflexivity.
+    - rewrite Hold in Hx. inversion Hx; subst. reflexivity. }
+  assert (Hold_ne : old <> []) by (unfold old; destruct ops; discriminate).
+  constructor.
+  - apply (ms_nodup _ _ _ _ _ Hms).
+  - apply (ms_keys _ _ _ _ _ Hms).
+  - apply (ms_root _ _ _ _ _ Hms).
+  - destruct (hi_rootdir _ _ Hinv) as (r & Hr & Hrd). destruct (Hfwd 0 r Hr) as (n & Hn & Hd).
+    exists n. split; [exact Hn|congruence].
+  - intros cs Hcs HF. rewrite (ms_F _ _ _ _ _ Hms cs Hcs) in HF. unfold Gmove in HF.
+    destruct (strip new cs) as [r|] eqn:E1.
+    + apply strip_some in E1. subst cs. apply Forall_app in Hcs. destruct Hcs as [_ Hr].
+      pose proof (hi_rootkey _ _ Hinv _ (gcs_app _ _ Hgo Hr) HF) as E. destruct old; [congruence|discriminate].
+    + destruct (strip old cs); [discriminate|]. apply (hi_rootkey _ _ Hinv _ Hcs HF).
+  - intros k i Hk. destruct (ms_vals _ _ _ _ _ Hms _ _ Hk) as (k0 & Hk0).
+    destruct (hi_valid _ _ Hinv _ _ Hk0) as (x & Hx). destruct (Hfwd i x Hx) as (n & Hn & _). eauto.
+  - intros cs c' i Hcs Hc'.
+    rewrite (ms_F _ _ _ _ _ Hms (cs ++ [c']) (gcs_snoc _ _ Hcs Hc')).
+    assert (HGcs : forall q, (Fi idx' cs = Some q) <-> (Gmove idx old new cs = Some q))
+      by (intros q; rewrite (ms_F _ _ _ _ _ Hms cs Hcs); reflexivity).
+    assert (Hrhs : (exists q, Fi idx' cs = Some q /\ Ch h3 q c' = Some i) <->
+                   (exists q, Gmove idx old new cs = Some q /\ Ch h3 q c' = Some i)).
+    { split; intros (q & Hq & Hqc); exists q; (split; [apply HGcs; exact Hq|exact Hqc]). }
+    rewrite Hrhs. clear Hrhs HGcs. unfold Gmove.
+    destruct (strip new (cs ++ [c'])) as [r|] eqn:EA.
+    + apply strip_some in EA. destruct (snoc_eq_app _ _ _ _ EA) as [[-> Enew]|(r' & -> & Ecs)].
+      * (* the new name itself *)
+        unfold new in Enew. apply app_inj_tail in Enew. destruct Enew as [<- <-].
+        rewrite app_nil_r. fold old. rewrite HFoc.
+        assert (E1 : strip new nps = None).
+        { apply strip_none. intros r E. apply (f_equal (@length str)) in E. unfold new in E. rewrite !app_length in E. cbn in E. lia. }
+        assert (E2 : strip old nps = None).
+        { apply strip_none. intros r E. apply (Hnb (r ++ [nn])). rewrite app_assoc. rewrite <- E. reflexivity. }
+        rewrite E1, E2, HFnp.
+        assert (Hch : Ch h3 np nn = Some oc).
+        { rewrite HCh. destruct (Nat.eqb_spec op np) as [E|_].
+          - destruct (str_eqb_spec nn on) as [E'|_]; cbn [andb].
+            + exfalso. apply (Hnb []). rewrite app_nil_r. unfold new, old. rewrite E'. rewrite E in HFop.
+              rewrite (dir_key_unique idx h Hinv nps ops np Hnps Hops HFnp HFop); [reflexivity|]. exists npn. auto.
+            + rewrite Nat.eqb_refl, str_eqb_refl. reflexivity.
+          - cbn [andb]. rewrite Nat.eqb_refl, str_eqb_refl. reflexivity. }
+        split.
+        -- intros [= <-]. exists np. auto.
+        -- intros (q & [= <-] & Hq). congruence.
+      * (* strictly below the new name *)
+        subst cs. apply Forall_app in Hcs. destruct Hcs as [_ Hr'].
+        rewrite strip_app. rewrite app_assoc.
+        rewrite (hi_edge _ _ Hinv (old ++ r') c' i (gcs_app _ _ Hgo Hr') Hc').
+        split; intros (q & Hq & Hqc); exists q; (split; [exact Hq|]).
+        -- rewrite HCh.
+           destruct (Nat.eqb_spec op q) as [<-|_].
+           { exfalso. pose proof (dir_key_unique idx h Hinv _ _ op (gcs_app _ _ Hgo Hr') Hops Hq HFop) as E.
+             assert (Hd : is_dir_at h op) by (exists opn; auto). specialize (E Hd).
+             apply (f_equal (@length str)) in E. unfold old in E. rewrite !app_length in E. cbn in E. lia. }
+           cbn [andb]. destruct (Nat.eqb_spec np q) as [<-|_].
+           { exfalso. pose proof (dir_key_unique idx h Hinv _ _ np (gcs_app _ _ Hgo Hr') Hnps Hq HFnp) as E.
+             assert (Hd : is_dir_at h np) by (exists npn; auto). specialize (E Hd).
+             apply (Hnb (r' ++ [nn])). rewrite app_assoc, E. reflexivity. }
+           cbn [andb]. destruct nc as [j|]; [|exact Hqc].
+           destruct (Nat.eqb_spec j q) as [->|_]; [|exact Hqc].
+           destruct (Hncf q eq_refl) as (_ & _ & _ & Hl). rewrite Hl in Hqc. discriminate.
+        -- rewrite HCh in Hqc. destruct (Nat.eqb op q && str_eqb c' on); [discriminate|].
+           destruct (Nat.eqb_spec np q) as [<-|_].
+           { exfalso. pose proof (dir_key_unique idx h Hinv _ _ np (gcs_app _ _ Hgo Hr') Hnps Hq HFnp) as E.
+             assert (Hd : is_dir_at h np) by (exists npn; auto). specialize (E Hd).
+             apply (Hnb (r' ++ [nn])). rewrite app_assoc, E. reflexivity. }
+           cbn [andb] in Hqc. destruct nc as [j|]; [|exact Hqc].
+           destruct (Nat.eqb j q); [discriminate|exact Hqc].
+    + destruct (strip old (cs ++ [c'])) as [r|] eqn:EB.
+      * (* at or below the old name: gone *)
+        split; [discriminate|]. intros (q & Hq & Hqc). exfalso.
+        apply strip_some in EB. destruct (snoc_eq_app _ _ _ _ EB) as [[-> Eold]|(r' & -> & Ecs)].
+        -- unfold old in Eold. apply app_inj_tail in Eold. destruct Eold as [<- <-].
+           assert (E1 : strip new ops = None).
+           { apply strip_none. intros r E. apply (Hob (r ++ [on])). unfold old. rewrite E, <- app_assoc. reflexivity. }
+           assert (E2 : strip old ops = None).
+           { apply strip_none. intros r E. apply (f_equal (@length str)) in E. unfold old in E. rewrite !app_length in E. cbn in E. lia. }
+           rewrite E1, E2, HFop in Hq. inversion Hq; subst q.
+           rewrite HCh, Nat.eqb_refl, str_eqb_refl in Hqc. discriminate.
+        -- subst cs.
+           assert (E1 : strip new (old ++ r') = None).
+           { apply strip_none. intros r E. apply (proj1 (strip_none new ((old ++ r') ++ [c'])) EA (r ++ [c'])).
+             rewrite E, <- app_assoc. reflexivity. }
+           rewrite E1, strip_app in Hq. discriminate.
+      * (* elsewhere: unchanged *)
+        assert (E1 : strip new cs = None).
+        { apply strip_none. intros r E. apply (proj1 (strip_none new (cs ++ [c'])) EA (r ++ [c'])). rewrite E, <- app_assoc. reflexivity. }
+        assert (E2 : strip old cs = None).
+        { apply strip_none. intros r E. apply (proj1 (strip_none old (cs ++ [c'])) EB (r ++ [c'])). rewrite E, <- app_assoc. reflexivity. }
+        rewrite E1, E2. rewrite (hi_edge _ _ Hinv cs c' i Hcs Hc').
+        split; intros (q & Hq & Hqc); exists q; (split; [exact Hq|]).
+        -- rewrite HCh.
+           destruct (Nat.eqb_spec op q) as [<-|_].
+           { destruct (str_eqb_spec c' on) as [->|_]; cbn [andb].
+             - exfalso. apply (proj1 (strip_none old (cs ++ [on])) EB []). rewrite app_nil_r. unfold old.
+               rewrite (dir_key_unique idx h Hinv cs ops op Hcs Hops Hq HFop); [reflexivity|]. exists opn. auto.
+             - destruct (Nat.eqb_spec np op) as [E|_].
+               + destruct (str_eqb_spec c' nn) as [->|_]; cbn [andb].
+                 * exfalso. apply (proj1 (strip_none new (cs ++ [nn])) EA []). rewrite app_nil_r. unfold new.
+                   subst np. rewrite (dir_key_unique idx h Hinv cs nps op Hcs Hnps Hq HFnp); [reflexivity|]. exists opn. auto.
+                 * destruct nc as [j|]; [|exact Hqc]. destruct (Hncf j eq_refl) as (_ & Hjop & _ & _).
+                   destruct (Nat.eqb_spec j op); [congruence|exact Hqc].
+               + cbn [andb]. destruct nc as [j|]; [|exact Hqc]. destruct (Hncf j eq_refl) as (_ & Hjop & _ & _).
+                 destruct (Nat.eqb_spec j op); [congruence|exact Hqc]. }
+           cbn [andb]. destruct (Nat.eqb_spec np q) as [<-|_].
+           { destruct (str_eqb_spec c' nn) as [->|_]; cbn [andb].
+             - exfalso. apply (proj1 (strip_none new (cs ++ [nn])) EA []). rewrite app_nil_r. unfold new.
+               rewrite (dir_key_unique idx h Hinv cs nps np Hcs Hnps Hq HFnp); [reflexivity|]. exists npn. auto.
+             - destruct nc as [j|]; [|exact Hqc]. destruct (Hncf j eq_refl) as (_ & _ & Hjnp & _).
+               destruct (Nat.eqb_spec j np); [congruence|exact Hqc]. }
+           cbn [andb]. destruct nc as [j|]; [|exact Hqc].
+           destruct (Nat.eqb_spec j q) as [->|_]; [|exact Hqc].
+           destruct (Hncf q eq_refl) as (_ & _ & _ & Hl). rewrite Hl in Hqc. discriminate.
+        -- rewrite HCh in Hqc. destruct (Nat.eqb op q && str_eqb c' on); [discriminate|].
+           destruct (Nat.eqb_spec np q) as [<-|_].
+           { destruct (str_eqb_spec c' nn) as [->|_]; cbn [andb] in Hqc.
+             - exfalso. apply (proj1 (strip_none new (cs ++ [nn])) EA []). rewrite app_nil_r. unfold new.
+               rewrite (dir_key_unique idx h Hinv cs nps np Hcs Hnps Hq HFnp); [reflexivity|]. exists npn. auto.
+             - destruct nc as [j|]; [|exact Hqc]. destruct (Nat.eqb j np); [discriminate|exact Hqc]. }
+           cbn [andb] in Hqc. destruct nc as [j|]; [|exact Hqc]. destruct (Nat.eqb j q); [discriminate|exact Hqc].
+  - intros i n Hn Hnd.
+    destruct (Hget i n Hn) as [(_ & _ & Hd & _)|[(_ & _ & _ & Hd & _)|[(_ & _ & _ & jn & Hjn & ->)|(_ & _ & _ & Hold)]]]; try congruence.
+    + reflexivity.
+    + apply (hi_leaf _ _ Hinv _ _ Hold Hnd).
+  - intros i n Hn Hi0. pose proof (ms_count _ _ _ _ _ Hms i) as Hc.
+    destruct (Hget i n Hn) as [(-> & Hl & _)|[(_ & -> & Hl & _)|[(_ & _ & Enc & jn & Hjn & ->)|(_ & _ & Enc & Hold)]]].
+    + rewrite Hl, (hi_nlink _ _ Hinv _ _ Hop Hi0). f_equal.
+      destruct nc as [j|]; [|lia]. destruct (Hncf j eq_refl) as (_ & Hjop & _ & _). destruct (Nat.eqb_spec j op); [congruence|lia].
+    + rewrite Hl, (hi_nlink _ _ Hinv _ _ Hnp Hi0). f_equal.
+      destruct nc as [j|]; [|lia]. destruct (Hncf j eq_refl) as (_ & _ & Hjnp & _). destruct (Nat.eqb_spec j np); [congruence|lia].
+    + cbn [on_remove on_nlink]. rewrite (hi_nlink _ _ Hinv _ _ Hjn Hi0). rewrite Enc, Nat.eqb_refl in Hc. lia.
+    + rewrite (hi_nlink _ _ Hinv _ _ Hold Hi0). f_equal.
+      destruct nc as [j|]; [|lia]. destruct (Nat.eqb_spec j i); [congruence|lia].
+  - intros i n Hn Hnd.
+    destruct (Hget i n Hn) as [(-> & Hl & _)|[(_ & -> & Hl & _)|[(_ & _ & Enc & jn & Hjn & ->)|(_ & _ & Enc & Hold)]]].
+    + rewrite Hl. apply (hi_dirnlink _ _ Hinv _ _ Hop Hopd).
+    + rewrite Hl. apply (hi_dirnlink _ _ Hinv _ _ Hnp Hnpd).
+    + change (on_dir jn = true) in Hnd. cbn [on_remove on_nlink]. pose proof (hi_dirnlink _ _ Hinv _ _ Hjn Hnd). lia.
+    + apply (hi_dirnlink _ _ Hinv _ _ Hold Hnd).
+  - intros i n c' j Hn Hin.
+    destruct (Hget i n Hn) as [(-> & _ & _ & Hc & _)|[(_ & -> & _ & _ & Hc & _)|[(_ & _ & Enc & jn & Hjn & ->)|(_ & _ & Enc & Hold)]]].
+    + destruct (Hc _ _ Hin) as [->|Hin']; [exact Hnn|]. apply (hi_chgood _ _ Hinv _ _ _ _ Hop Hin').
+    + destruct (Hc _ _ Hin) as [->|Hin']; [exact Hnn|]. apply (hi_chgood _ _ Hinv _ _ _ _ Hnp Hin').
+    + destruct Hin.
+    + apply (hi_chgood _ _ Hinv _ _ _ _ Hold Hin).
+  - intros i n Hn.
+    destruct (Hget i n Hn) as [(_ & _ & _ & _ & Hnd)|[(_ & _ & _ & _ & _ & Hnd)|[(_ & _ & Enc & jn & Hjn & ->)|(_ & _ & Enc & Hold)]]]; try exact Hnd.
+    + constructor.
+    + apply (hi_chnodup _ _ Hinv _ _ Hold).
+Qed.
